@@ -12,7 +12,7 @@ notes={
 "C08":("proof","presence corollaries of T_enc and the spec round trip (optional set to zero, oneof member holding zero, empty sub-message, repeated message count); stream M with every presence slot at default content against reference Has()"),
 "C09":("proof","specUnmarshal_append: a||b = a then b for any b and any number of calls (induction on the list); stream M sequential vs one call vs reference; translated decoder.go / wire.go = model"),
 "C10":("proof","unknown_skipped / unknown_captured / capture_exact on the specification; forward-compatibility chains sender -> narrow capturing schema -> wide schema on the real code; translated decoder.go (UnrecognizedFields, Loop) / ConsumeFieldValue = model"),
-"C11":("proof","map_table_expected: all 180 codecs have the one modelled shape (regenerated from picowire/map.go); generic map encode/decode theorems; stream M over all 180 instantiations"),
+"C11":("proof","map_table_expected: all 180 codecs have the one modelled shape (regenerated from picowire/map.go); generic map encode/decode theorems; stream M over all 180 instantiations; all 360 PicoEncode/PicoDecode methods of picowire/map.go translated statement by statement and proved equal to the model for every key kind and value kind (GoTie.MP.mapEncode_tie: any iteration order, any buffer; mapDecode_tie: any input, by a simulation through RepeatedMessage/Loop)"),
 "C12":("proof","the theorems of C01-C03,C06,C08 are stated for every supported schema (deep embedding of the emitted code); PARTIAL: the tie of that embedding to protoc-gen-pico is by running the working-tree generator on an exhaustive shape schema + sampled fresh schemas each run (terminates, compiles, deterministic, behaves as the model); generator_table_expected: the decision table of the working-tree protoc-gen-pico (every statement, field type, field order and mask it emits for the AllShapes schema) is regenerated on every run and pinned; the checked-in *.pico.go files are compared with a regeneration"),
 "C13":("proof","per-call theorems for readers (untouched on other field, consume exactly one field, sticky errors) and writers (closed forms, default omitted, nesting composes, absence leaves no trace) + regenerated 60-writer/30-reader tables; streams E, D, P; every Decoder/Encoder core method and wire primitive translated from the source and proved equal to its model (GoTie.D/E/W); all 30 typed readers and 60 typed writers of decoder_types.go / encoder_types.go translated and proved equal to readSingle/readRepeated/writeSingle/writeRepeated for every kind (GoTie.DT, GoTie.ET)"),
 "C14":("proof","Int-level theorems with explicit int64/int32 wrap-around: split, round trip, exact saturation characterisation, timestamp normalisation; stream T vs durationpb/timestamppb; time package behaviour is a trusted parameter; picoconv/duration.go and timestamp.go translated from the source and proved equal to the model (GoTiePico: saturation logic = durDecode)"),
